@@ -22,7 +22,7 @@ of n zeros and one counting loop `rv[i] = ...` whose other statements do not tou
 `Leaves K` (Model/ImpKit.v).  Integer (size_t) arithmetic becomes Z arithmetic (`/` is integer division; unsigned
 subtraction is Z subtraction - the theorems assume n >= 1 where the code computes n-1), an
 integer-to-floating conversion becomes `fz`."""
-import sys, os
+import sys, os, re
 sys.path.insert(0, os.path.dirname(os.path.abspath(__file__)))
 from cxx_ast import *
 
@@ -723,8 +723,253 @@ def factory(out):
     return ps, text
 
 
+# ----------------------------------------------------------------------------------------------------------------------
+# Purity scan (C16, strengthening after seeded change C16-H): the generated definitions are Gallina FUNCTIONS of the
+# arguments, so the theorems silently assume that the C++ functions are: nothing they compute may depend on an earlier
+# call in the same process.  The scan looks at EVERY function definition of the six classes and of the factory (not
+# only at the idioms the body translation reads), classifies every variable the bodies declare or refer to, and
+#   * refuses (TRANSLATE-ERROR "state that outlives the call") a `static` / `thread_local` local that is not a
+#     call-independent constant, a reference to a variable defined outside the function that is not const-qualified
+#     (namespace-scope variable, static data member), and a static data member that is not const;
+#   * refuses (ordinary TRANSLATE-ERROR) file-scope definitions in src/Z/*.cpp other than the scanned functions
+#     (a helper function could hide the same kind of state);
+#   * emits what it saw as the table `imp_decls` (function -> declarations with their lifetime), about which
+#     Props/Properties_C16.v proves `imp_functions_pure`.
+
+PURE_CLASSES = [("src/Z/Impedance.cpp", "Impedance"), ("src/Z/ConstImpedance.cpp", "ConstImpedance"),
+                ("src/Z/CollimatorImpedance.cpp", "CollimatorImpedance"), ("src/Z/FreeSpaceCSR.cpp", "FreeSpaceCSR"),
+                ("src/Z/ParallelPlatesCSR.cpp", "ParallelPlatesCSR"), ("src/Z/ResistiveWall.cpp", "ResistiveWall")]
+PURE_FACTORY = ("src/Z/ImpedanceFactory.cpp", "makeImpedance")
+FUNC_KINDS = ("CXXMethodDecl", "CXXConstructorDecl", "FunctionDecl", "CXXDestructorDecl", "CXXConversionDecl")
+
+
+class PurityError(TranslateError):
+    pass
+
+
+def _walk(n, f, skip_self=False):
+    if not skip_self:
+        f(n)
+    for c in n.get("inner", []) or []:
+        if c:
+            _walk(c, f)
+
+
+def _is_const(q, node=None):
+    q = (q or "").strip()
+    return q.startswith("const ") or " const" in q.split("<")[0] or bool(node and node.get("constexpr"))
+
+
+def scan_function(fname, d, table, bad):
+    """classify the declarations of one function definition; appends (name, lifetime) pairs to table[fname]"""
+    local_ids, rows = {}, []
+    for c in d.get("inner", []) or []:
+        if c and c.get("kind") == "ParmVarDecl":
+            local_ids[c.get("id")] = c.get("name") or "_"
+            rows.append((c.get("name") or "_", "Automatic"))
+    statics = []
+
+    def decl(n):
+        if n.get("kind") == "VarDecl":
+            local_ids[n.get("id")] = n.get("name")
+            if n.get("storageClass") in ("static", "extern") or n.get("tls"):
+                statics.append(n)
+            else:
+                rows.append((n.get("name"), "Automatic"))
+    for c in d.get("inner", []) or []:
+        if c and c.get("kind") in ("CompoundStmt", "CXXCtorInitializer", "CXXTryStmt"):
+            _walk(c, decl)
+    auto_ids = set(local_ids) - {n.get("id") for n in statics}
+    for n in statics:
+        # a static local is a constant only when it is const-qualified and its initialiser mentions nothing of the call
+        dep = []
+        _walk(n, lambda x: dep.append(x) if x.get("kind") == "DeclRefExpr" and (x.get("referencedDecl") or {}).get("id") in auto_ids else None,
+              skip_self=True)
+        if n.get("storageClass") == "static" and not n.get("tls") and _is_const(qtype(n), n) and not dep:
+            rows.append((n.get("name"), "StaticConstant"))
+        else:
+            rows.append((n.get("name"), "Persistent"))
+            bad.append("%s: %s local `%s` of type %s" % (fname, "thread_local" if n.get("tls") else n.get("storageClass"), n.get("name"), qtype(n)))
+    seen = set()
+
+    def ref(n):
+        if n.get("kind") != "DeclRefExpr":
+            return
+        r = n.get("referencedDecl") or {}
+        if r.get("kind") not in ("VarDecl", "VarTemplateSpecializationDecl") or r.get("id") in local_ids or r.get("id") in seen:
+            return
+        seen.add(r.get("id"))
+        q = (r.get("type") or {}).get("qualType", "")
+        if _is_const(q):
+            rows.append((r.get("name"), "StaticConstant"))
+        else:
+            rows.append((r.get("name"), "Persistent"))
+            bad.append("%s: refers to `%s` of type %s, a variable defined outside the function that is not const" % (fname, r.get("name"), q))
+    for c in d.get("inner", []) or []:
+        if c and c.get("kind") in ("CompoundStmt", "CXXCtorInitializer", "CXXTryStmt"):
+            _walk(c, ref)
+    table.setdefault(fname, [])
+    table[fname] += [r for r in rows if r not in table[fname]]
+
+
+def _strip_comments(txt):
+    txt = re.sub(r"/\*.*?\*/", " ", txt, flags=re.S)
+    txt = re.sub(r"//[^\n]*", " ", txt)
+    txt = re.sub(r'"(\\.|[^"\\])*"', '""', txt)
+    return txt
+
+
+def main_file_text(src_rel):
+    """the preprocessed text of the translation unit's own file (conditional blocks resolved as the harness build does)"""
+    import subprocess, hashlib
+    sys.path.insert(0, os.path.join(VERIF, "lib"))
+    import vp_build
+    src = os.path.join(REPO, src_rel)
+    key = hashlib.sha1((vp_build.headers_hash() + "E").encode() + open(src, "rb").read()).hexdigest()
+    cfile = os.path.join(CACHE, "ast", key + ".E")
+    if os.path.exists(cfile):
+        return open(cfile).read()
+    cfg = vp_build.gen_config(os.path.join(CACHE, "cfg", vp_build.headers_hash()[:16]))
+    r = subprocess.run(["clang++", "-E", "-std=c++14", "-I" + cfg, "-I" + os.path.join(REPO, "inc"), "-I/usr/include/hdf5/serial"] + DEFS + [src],
+                       capture_output=True, text=True, timeout=300)
+    if r.returncode != 0:
+        raise TranslateError("preprocessing %s failed: %s" % (src_rel, r.stderr[-1000:]))
+    keep, mine = [], False
+    for line in r.stdout.splitlines():
+        m = re.match(r'^#\s*\d+\s+"([^"]*)"', line)
+        if m:
+            mine = os.path.realpath(m.group(1)) == os.path.realpath(src)
+        elif mine and not line.startswith("#"):
+            keep.append(line)
+    os.makedirs(os.path.dirname(cfile), exist_ok=True)
+    with open(cfile + ".tmp", "w") as f:
+        f.write("\n".join(keep))
+    os.replace(cfile + ".tmp", cfile)
+    return "\n".join(keep)
+
+
+def file_scope_inventory(src_rel, allowed):
+    """every definition at file scope of a src/Z translation unit must be one of the scanned functions"""
+    txt = _strip_comments(main_file_text(src_rel))
+    depth, par, start, i, items = 0, 0, 0, 0, []
+
+    def skip_braces(j):
+        dd = 1
+        while j + 1 < len(txt) and dd:
+            j += 1
+            dd += {"{": 1, "}": -1}.get(txt[j], 0)
+        return j
+    while i < len(txt):
+        ch = txt[i]
+        if ch in "()" and depth == 0:
+            par += 1 if ch == "(" else -1
+        elif ch == "{" and depth == 0 and par > 0:
+            i = skip_braces(i)                             # a braced initialiser inside an argument list
+        elif ch == "{":
+            if depth == 0:
+                head = " ".join(txt[start:i].split())
+                prev = re.search(r"([A-Za-z_]\w*|>)\s*$", txt[start:i])
+                if prev and prev.group(1) not in ("const", "noexcept", "override", "final", "try", "mutable") and re.search(r"\)\s*:", head) \
+                        and not re.match(r"^namespace\b", head):
+                    i = skip_braces(i) + 1                 # member{...} in a constructor's initialiser list
+                    continue
+                if re.match(r"^namespace\b[^;(]*$", head):        # namespace N { ... }: transparent
+                    j = skip_braces(i)
+                    txt = txt[:i] + " " + txt[i + 1:j] + " " + txt[j + 1:]
+                    start = i + 1
+                    i += 1
+                    continue
+                items.append(("body", head))
+            depth += 1
+        elif ch == "}":
+            depth -= 1
+            if depth == 0:
+                start = i + 1
+        elif ch == ";" and depth == 0 and par == 0:
+            head = " ".join(txt[start:i].split())
+            if head:
+                items.append(("stmt", head))
+            start = i + 1
+        i += 1
+    for kind, head in items:
+        if kind == "stmt":
+            if re.match(r"^(using|typedef|template|static_assert)\b", head) or re.match(r"^(static\s+)?(constexpr|const)\b", head):
+                continue
+            if "(" in head and "=" not in head.split("(")[0]:
+                continue                                  # a function declaration
+            raise PurityError("state that outlives the call: %s defines the file-scope variable `%s`" % (src_rel, head[:120]))
+        m = re.search(r"([A-Za-z_][\w:~]*(?:\s*operator\s*[^\s(]+)?)\s*\(", head)
+        name = re.sub(r"\s+", "", m.group(1)) if m else head
+        if not any(name == a or name == "vfps::" + a for a in allowed):
+            raise TranslateError("%s: definition `%s` at file scope is not one of the functions the purity scan reads" % (src_rel, head[:120]))
+
+
+def purity_scan():
+    table, bad, order = {}, [], []
+    for src, cls in PURE_CLASSES:
+        docs = ast_of(src, "vfps::" + cls)
+        names = set()
+
+        def take(d, owner):
+            if d.get("kind") in FUNC_KINDS and any(c and c.get("kind") == "CompoundStmt" for c in d.get("inner", []) or []):
+                fname = "%s::%s" % (owner, d.get("name"))
+                names.add(d.get("name"))
+                if fname not in order:
+                    order.append(fname)
+                scan_function(fname, d, table, bad)
+        for d in docs:
+            if d.get("kind") == "CXXRecordDecl" and d.get("name") == cls:
+                for c in d.get("inner", []) or []:
+                    if not c:
+                        continue
+                    take(c, cls)
+                    if c.get("kind") == "VarDecl":        # static data member
+                        fname = "%s::<static members>" % cls
+                        if fname not in order:
+                            order.append(fname)
+                        if _is_const(qtype(c), c):
+                            table.setdefault(fname, []).append((c.get("name"), "StaticConstant"))
+                        else:
+                            table.setdefault(fname, []).append((c.get("name"), "Persistent"))
+                            bad.append("%s: static data member `%s` of type %s is not const" % (cls, c.get("name"), qtype(c)))
+            else:
+                take(d, cls)
+        allowed = ["%s::%s" % (cls, n) for n in names] + ["%s::operator%s" % (cls, n[8:]) for n in names if n.startswith("operator")]
+        file_scope_inventory(src, allowed)
+    src, fn = PURE_FACTORY
+    docs = ast_of(src, "vfps::" + fn)
+    got = [d for d in docs if d.get("kind") == "FunctionDecl" and d.get("name") == fn and
+           any(c and c.get("kind") == "CompoundStmt" for c in d.get("inner", []) or [])]
+    if len(got) != 1:
+        raise TranslateError("definition of %s not found once" % fn)
+    order.append(fn)
+    scan_function(fn, got[0], table, bad)
+    file_scope_inventory(src, [fn])
+    if bad:
+        raise PurityError("state that outlives the call (the generated definitions are functions of the arguments only): " + "; ".join(bad))
+    return [(f, table.get(f, [])) for f in order]
+
+
+def emit_purity(out, decls):
+    out.append("")
+    out.append("(* Purity scan: every function definition of the impedance classes and of the factory, with every variable its")
+    out.append("   body declares (parameters, locals) or refers to (constants defined outside) and the lifetime of that variable.")
+    out.append("   A `Persistent` entry (static / thread_local local that is not a call-independent constant, non-const variable")
+    out.append("   defined outside the function, non-const static data member) is refused by the translator before this table is")
+    out.append("   written; Props/Properties_C16.v proves imp_functions_pure about the table. *)")
+    out.append("Import String.")
+    out.append("Local Open Scope string_scope.")
+    out.append("Definition imp_decls : list fn_decls := [")
+    rows = []
+    for f, vs in decls:
+        rows.append("  mk_fn \"%s\" [%s]" % (f, "; ".join("(\"%s\", %s)" % (v or "_", l) for v, l in vs)))
+    out.append(";\n".join(rows))
+    out.append("].")
+
+
 def translate():
     CTORS.clear()
+    decls = purity_scan()          # refuses state that outlives a call before anything is translated
     out = ["(* GENERATED on every run by translate/imp2coq.py from src/Z/FreeSpaceCSR.cpp, ResistiveWall.cpp,",
            "   ConstImpedance.cpp, CollimatorImpedance.cpp, Impedance.cpp, ImpedanceFactory.cpp. Do not edit.",
            "   Leaves (E : Leaves K): l_pw = std::pow, l_sq = std::sqrt, l_lg = std::log, l_ab = std::abs,",
@@ -732,7 +977,8 @@ def translate():
            "   l_cadd = std::complex<float>::operator+, l_PPs = sample i of ParallelPlatesCSR(n, f0, f_max, g) (Airy functions:",
            "   the value is not translated, only the loop that stores it). *)",
            "From Coq Require Import List ZArith Bool.",
-           "From Inovesa Require Import Base.FieldKit Model.Impedance Model.ImpKit.",
+           "From Coq Require String.",
+           "From Inovesa Require Import Base.FieldKit Model.Impedance Model.ImpKit Model.ImpPure.",
            "Import ListNotations.",
            "Local Open Scope F_scope.",
            "Local Open Scope bool_scope.",
@@ -769,6 +1015,7 @@ def translate():
     out.append("")
     out.append("Definition makeImpedance (K : Fld) (E : Leaves K) : %s -> option (list (cpx K)) :=" % " -> ".join(COQTY[t] for _, t in ps if t != "P"))
     out.append("  makeImpedance_with K E (ParallelPlatesCSR_ctor K E) (FreeSpaceCSR_ctor K E) (ResistiveWall_ctor K E) (CollimatorImpedance_ctor K E).")
+    emit_purity(out, decls)
     return "\n".join(out) + "\n"
 
 
